@@ -19,6 +19,7 @@ SEARCH = ("suite_search", {"n": {"quick": 160, "thorough": 3000}, "crash_n": {"q
 SEARCH_CRASH = ("suite_search", {"n": {"quick": 20, "thorough": 200}, "crash_n": {"quick": 8, "thorough": 150}})
 
 GRID = ("suite_grid", {"n": {"quick": 120, "thorough": 3000}})
+GRID_DISCOVER_RELOAD = ("suite_grid", {"n": {"quick": 100, "thorough": 2500}, "modes": ("discover-reload",)})
 GRID_DISCOVER = ("suite_grid", {"n": {"quick": 320, "thorough": 5000}, "modes": ("discover",)})
 SAMPLING = ("suite_sampling", {"n": {"quick": 160, "thorough": 3000}, "subprocs": {"quick": 1, "thorough": 2}})
 SAMPLING_GROW = ("suite_sampling", {"n": {"quick": 120, "thorough": 3000}, "subprocs": 0, "modes": ("grow-random", "grow-hyperband")})
@@ -61,7 +62,7 @@ PROPS = {
                           "retry starting from empty reports), retries served first with the same values, final trials never reissued, "
                           "and abort <=> the end order contains K consecutive FAILED (scanning loop proved equivalent to the list statement).",
             "level_note": CORE_NOTE, "assumptions": []},
-    "C07": {"suites": [ORACLE_RELOAD],
+    "C07": {"suites": [ORACLE_RELOAD, GRID_DISCOVER_RELOAD],
             "level_text": "Theorems (Ktm/Props/C07.lean): trial files and oracle file stay consistent with memory along every run of "
                           "complete operations (any algorithm, schedule, outcomes); reload of a saved disk = the state with its running "
                           "trials queued again, all other trials, orders, run counts and the algorithm state restored exactly; the "
